@@ -283,6 +283,24 @@ def _uf_impl(*args, name, out_avals):
     return res
 
 
+def model_split(key, num=2):
+    """jax.random.split realised by the solver model's interpretation of the uninterpreted split function (replays over abstract environments)"""
+    model = UF_MODEL[0]
+    kd = np.asarray(_kd(key))
+    shape = (num,) if isinstance(num, (int, np.integer)) else tuple(num)
+    sym = S.Sym()
+    e = type("E", (), {"params": {"shape": shape}})()
+    x = np.empty(kd.shape[:-1], dtype=object)
+    for idx in np.ndindex(*x.shape):
+        x[idx] = S.Key(z3.IntVal(int(kd[idx + (0,)])), z3.IntVal(int(kd[idx + (1,)])))
+    out = sym.p_random_split(e, x)
+    res = np.zeros(out.shape + (2,), dtype=np.uint32)
+    for idx in np.ndindex(*out.shape):
+        for w, t in enumerate((out[idx].k0, out[idx].k1)):
+            res[idx + (w,)] = model.eval(t, model_completion=True).as_long() % (2**32)
+    return jnp.asarray(res)
+
+
 def uf_call(name, out_tree_example, *args):
     """Uninterpreted function `name` of all leaves of args, returning a pytree shaped like the example."""
     flat, _ = jax.tree_util.tree_flatten(args)
